@@ -1,5 +1,11 @@
 package symgo
 
+import (
+	"fmt"
+
+	"verif/smt"
+)
+
 // CurFile is the source file of the instruction being executed (call site for hooks).
 func (in *Interp) CurFile() string {
 	if !in.curPos.IsValid() {
@@ -10,3 +16,35 @@ func (in *Interp) CurFile() string {
 
 // SlowQueryLog, when set, receives a line for every feasibility query slower than 0.1 s.
 var SlowQueryLog func(string)
+
+// PickMapKey returns a fresh w-bit solver variable constrained to be the key of
+// some present entry of the map m points to (0 when the map is empty): the
+// contract of a function that returns "one of the keys" by a rule the encoding
+// does not follow (iteration order, randomness).
+func (in *Interp) PickMapKey(m Value, tag string, w int) *smt.Term {
+	st := in.St
+	k := in.nondetCount[tag]
+	in.nondetCount[tag]++
+	v := st.Var(fmt.Sprintf("%s#%d", tag, k), w)
+	in.Nondets = append(in.Nondets, v)
+	in.mapAlts(m, func(p Value) Value {
+		mv, ok := unwrapIface(in.load(p)).(*MapVal)
+		if !ok {
+			panic(in.unsupported(fmt.Sprintf("PickMapKey: not a pointer to a map (%T)", in.load(p))))
+		}
+		some := st.F
+		if mv.M != nil {
+			for _, e := range mv.M.Entries {
+				kt, ok := e.K.(*smt.Term)
+				if !ok {
+					panic(in.unsupported("PickMapKey: non-integer key"))
+				}
+				some = st.Or(some, st.And(e.G, st.Eq(kt, v)))
+			}
+		}
+		empty := st.Eq(in.mapLen(mv), st.BV(0, 64))
+		in.assume(st.Or(some, st.And(empty, st.Eq(v, st.BV(0, w)))))
+		return v
+	})
+	return v
+}
